@@ -395,9 +395,13 @@ def gen(rng, cfg, tier='quick', kf=False):
                 nx = next(len(s_[3]['coeffs']) for s_ in stmts if s_[1] == x) if any(s_[1] == x and 'coeffs' in s_[3] for s_ in stmts) else None
                 if env_[x].degree() > 3 or P > 31:
                     continue
-                if (nx is None or nx - 1 != env_[x].degree()) and not kf:
-                    continue      # known finding secpoly-irreducible-hidden-degree
-                if nx is None or nx - 1 != env_[x].degree():
+                hidden = nx is None or nx - 1 != env_[x].degree()
+                # known finding secpoly-irreducible-hidden-degree: with slack in the public length bound an IRREDUCIBLE
+                # polynomial is reported reducible.  Reducible ones and constants (reference answer 0) are not
+                # affected by it, so they stay in the ordinary runs (e.g. a constant padded with zeros must give 0)
+                if hidden and not kf and e2[out]:
+                    continue
+                if hidden and e2[out]:
                     tags.add('irreducible_hidden_degree')
             stmts.append([opn, out, args, pr])
             env_ = e2
